@@ -106,6 +106,12 @@ def encode_addrs(msg: Message, field: str) -> bytes:
     addrs = email.utils.getaddresses(field_data, strict=False)
 
     for real_name, email_address in addrs:
+        # A field that is there but holds no address (`To:` and nothing
+        # else) gives us one empty pair. That is no address.
+        #
+        if not real_name and not email_address:
+            continue
+
         addr: list[bytes] = []
 
         # the real name is not set, it turns into nil.
@@ -117,7 +123,9 @@ def encode_addrs(msg: Message, field: str) -> bytes:
         # mailbox and hostname MUST be latin-1 encodable is my understanding
         #
         if "@" in email_address:
-            mailbox, host = email_address.split("@")
+            # NOTE: The local part may be a quoted string with an `@` in it.
+            #
+            mailbox, host = email_address.rsplit("@", 1)
             addr.append(encode_header(mailbox))
             addr.append(encode_header(host))
         else:
@@ -126,6 +134,10 @@ def encode_addrs(msg: Message, field: str) -> bytes:
 
         result.append(b"(" + b" ".join(addr) + b")")
 
+    # An address list is `"(" 1*address ")" / nil`.
+    #
+    if not result:
+        return b"NIL"
     return b"(" + b" ".join(result) + b")"
 
 
